@@ -166,6 +166,14 @@ let d_cfg = function
   | L [a; b; c; d] -> { c_safe = d_bool a; c_nightly = d_bool b; c_zeroize = d_bool c; c_zod = d_bool d }
   | _ -> fail "cfg"
 
+let d_variant_src = function
+  | L [attrs; fields] -> { vs_attrs = d_list d_toks attrs; vs_fields = d_list (d_list d_toks) fields }
+  | _ -> fail "variant_src"
+let d_item_src = function
+  | L [attrs; fields; variants] ->
+      { is_attrs = d_list d_toks attrs; is_fields = d_list (d_list d_toks) fields; is_variants = d_list d_variant_src variants }
+  | _ -> fail "item_src"
+
 let print_toks oc ts = List.iter (fun t -> output_char oc '\t'; output_string oc (ostr t)) ts
 
 let () =
@@ -177,8 +185,10 @@ let () =
       let line = input_line ic in
       if String.length line > 0 then begin
         match parse_sexp line with
-        | L [A "case"; Q id; c; it] ->
-            let r = run_expand (d_cfg c) (d_item it) in
+        | L [A "case"; Q id; c; it; src] ->
+            let item = d_item it in
+            let isrc = d_item_src src in
+            let r = run_expand (d_cfg c) item in
             Printf.fprintf oc "CASE %s\n" id;
             (match r with
              | ROk impls ->
@@ -190,6 +200,11 @@ let () =
                    output_string oc "\t}"; print_toks oc o.io_extra; output_char oc '\n') impls
              | RErr e -> Printf.fprintf oc "ERR %s\n" (ostr (error_name e))
              | RPanic s -> Printf.fprintf oc "PANIC %s\n" (ostr s));
+            (match run_stage_a item isrc with
+             | AOk ts -> output_string oc "A\tOK"; print_toks oc ts; output_char oc '\n'
+             | AErr e -> Printf.fprintf oc "A\tERR\t%s\n" (ostr (error_name e))
+             | APanic s -> Printf.fprintf oc "A\tPANIC\t%s\n" (ostr s));
+            output_string oc "S"; print_toks oc (run_strip item isrc); output_char oc '\n';
             if want_digest then Printf.fprintf oc "D %s\n" (string_of_n (digest_result r))
         | _ -> raise (Parse_error "case")
       end
